@@ -10,7 +10,8 @@ import pandas as pd
 from harness import tlc as T
 from harness.core import canon
 
-ND, NS, NF = 2, 2, 2
+ND, NS = 2, 2
+NFOLDS = {"n": 2}
 N_INST = 8
 CALLS = {"n": 0, "crash": 0, "log": []}
 
@@ -40,7 +41,9 @@ class SigClassifier(BaseClassifier):
     def fit(self, X, y):
         ids = [int(round(X.iloc[i, 0].iloc[0])) for i in range(len(X))]
         self._tick(("fit", self.sid, tuple(ids)))
-        self.sig_ = sum(ids)
+        # an object that is fitted again (instead of a fresh clone per fold) betrays itself in its predictions
+        self.nfit_ = getattr(self, "nfit_", 0) + 1
+        self.sig_ = sum(ids) + 1000 * (self.nfit_ - 1)
         self.classes_ = np.unique(y)
         self._is_fitted = True
         return self
@@ -67,9 +70,15 @@ def honest(d, s, train_pos, pos):
     return [(sig * 7 + s * 3 + ids[p]) % 5 for p in pos]
 
 
+def make_cv():
+    from sklearn.model_selection import KFold, ShuffleSplit
+    if NFOLDS["n"] == 1:
+        return ShuffleSplit(n_splits=1, test_size=0.5, random_state=0)     # a single split
+    return KFold(n_splits=NFOLDS["n"])
+
+
 def folds():
-    from sklearn.model_selection import KFold
-    return list(KFold(n_splits=NF).split(np.arange(N_INST)))
+    return [(list(a), list(b)) for a, b in make_cv().split(np.arange(N_INST))]
 
 
 def do_run(path, o, crash):
@@ -78,7 +87,6 @@ def do_run(path, o, crash):
     from sktime.benchmarking.strategies import TSCStrategy
     from sktime.benchmarking.tasks import TSCTask
     from sktime.benchmarking.data import RAMDataset
-    from sklearn.model_selection import KFold
     import logging
     logging.disable(logging.CRITICAL)        # the orchestrator reports every skipped key on the console
     Clf = make_classifier()
@@ -87,7 +95,7 @@ def do_run(path, o, crash):
     tasks = [TSCTask(target="class_val") for _ in datasets]
     strategies = [TSCStrategy(Clf(sid=s), name="s%d" % s) for s in range(1, NS + 1)]
     res = HDDResults(path=path)
-    orch = Orchestrator(tasks=tasks, datasets=datasets, strategies=strategies, cv=KFold(n_splits=NF), results=res)
+    orch = Orchestrator(tasks=tasks, datasets=datasets, strategies=strategies, cv=make_cv(), results=res)
     crashed = False
     try:
         orch.fit_predict(overwrite_predictions=o["owp"], predict_on_train=o["pot"], save_fitted_strategies=o["sf"],
@@ -185,10 +193,16 @@ def observe(runs, workdir, tid):
                 if os.path.exists(os.path.join(path, "results.pickle")):
                     m = load(os.path.join(path, "results.pickle"))
                     m.cv = None
-                    for f in range(NF):
-                        got = [(p.strategy_name, p.dataset_name) for p in m.load_predictions(cv_fold=f, train_or_test="test")]
+                    for f in range(NFOLDS["n"]):
+                        got = list(m.load_predictions(cv_fold=f, train_or_test="test"))
                         if len(got) != len(snap["S"]) * len(snap["D"]):
                             visible_ok = False
+                        for pw in got:      # records read back equal what was stored
+                            rel = os.path.join(pw.strategy_name, pw.dataset_name, "%s_test_%d.csv" % (pw.strategy_name, f))
+                            df = snap["files"][rel][2]
+                            if list(pw.index) != list(df["index"]) or list(pw.y_true) != list(df["y_true"]) or \
+                                    list(pw.y_pred) != list(df["y_pred"]):
+                                visible_ok = False
             except Exception:
                 visible_ok = False
             out.append({"pred": sorted(pred), "fitted": sorted(fitted), "S": [int(x[1:]) for x in snap["S"]],
@@ -212,31 +226,35 @@ def expected_of(run):
 
 
 def run(ctx):
-    ctx.model_check("MCBenchmark", "MCBenchmark.%s.cfg" % ctx.tier, coverage=False, timeout=1700)
-    r = T.must(T.run("MCBenchmark", "MCBenchmark.%s.emit.cfg" % ctx.tier, ctx.work, workers=8, timeout=1700), "emit")
-    behs = r.printed
-    if not behs:
-        raise T.TLCError("no behaviours")
-    ctx.notes.append("run sequences emitted by TLC: %d" % len(behs))
-    k = 150 if ctx.quick else 1500
-    if len(behs) > k:
-        # keep every single-crash-then-resume of the default options, sample the rest
-        behs = ctx.rng.sample(behs, k)
-        ctx.exhaustive = False
+    behs = []
+    for nf, cfgname in ((2, "MCBenchmark.%s" % ctx.tier), (1, "MCBenchmark.single")):
+        ctx.model_check("MCBenchmark", cfgname + ".cfg", coverage=False, timeout=1700)
+        r = T.must(T.run("MCBenchmark", cfgname + ".emit.cfg", ctx.work, workers=8, timeout=1700), "emit")
+        if not r.printed:
+            raise T.TLCError("no behaviours")
+        k = (120 if nf == 2 else 40) if ctx.quick else (1500 if nf == 2 else 400)
+        chosen = r.printed if len(r.printed) <= k else ctx.rng.sample(r.printed, k)
+        if len(chosen) < len(r.printed):
+            ctx.exhaustive = False
+        behs += [dict(b, nf=nf) for b in chosen]
+        ctx.notes.append("run sequences emitted by TLC for %d fold(s): %d, replayed %d" % (nf, len(r.printed), len(chosen)))
     work = os.path.join(ctx.work, "stores")
     os.makedirs(work, exist_ok=True)
     kinds = set()
     events = []
     for i, b in enumerate(behs):
         runs = b["runs"]
+        NFOLDS["n"] = b["nf"]
         obs = observe(runs, work, i)
         ctx.evaluations += 1
-        sc = {"runs": [{"o": x["o"], "crash": x["crash"]} for x in runs]}
+        sc = {"runs": [{"o": x["o"], "crash": x["crash"]} for x in runs], "folds": b["nf"]}
         if isinstance(obs, dict):
             ctx.violation(sc, "machinery/crash: " + obs["crash"])
             continue
         before = {"pred": [], "fitted": [], "S": [], "D": []}
         for rn, (run_, o) in enumerate(zip(runs, obs), start=1):
+            if b["nf"] != 2:
+                break       # the judge's constants are those of the 2-fold model; single-split runs are compared with TLC's snapshots
             events.append({"tid": i, "i": rn, "o": run_["o"], "crash": run_["crash"], "before": before, "sc": sc,
                            "obs": {"pred": o["pred"], "fitted": o["fitted"], "S": o["S"], "D": o["D"],
                                    "fits": sorted(o["fits"]), "preds": o["preds"], "calls": o["calls"],
@@ -292,6 +310,7 @@ def replay(ctx, doc):
     sc = doc["scenario"]
     work = os.path.join(ctx.work, "stores")
     os.makedirs(work, exist_ok=True)
+    NFOLDS["n"] = sc.get("folds", 2)
     obs = observe(sc["runs"], work, 0)
     print(canon(obs)[:3000])
     print("VIOLATION property=C19 replay=%s (re-run ./check C19 for the judged comparison)" % ctx.replay)
